@@ -120,7 +120,9 @@ class Constant(Leaf):
 
     def __post_init__(self):
         super().__post_init__()
-        self.literal = self.literal or self.ast
+        # NOTE: not "or": the literals 0, 0.0 and False are falsy
+        if self.literal is None or (isinstance(self.literal, str) and not self.literal):
+            self.literal = self.ast
 
     def _parse(self, ctx: Ctx) -> Any:
         return ctx.constant(self.literal)
